@@ -64,6 +64,25 @@ var londonCfg = func() *params.ChainConfig {
 const baseTime = uint64(1_700_000_000)
 
 // gethHeader builds the go-ethereum view of a header (ground truth for hashing and base fee).
+// gas profile of the generated headers (set by New from the search's tag; one search runs at a time):
+// default = below target with a gwei-range base fee (the fee decreases); "tiny-fee" = above target with a base fee of a
+// few wei (the increase rounds to zero and must be floored at 1); "at-target" = exactly at the target (fee unchanged).
+var profGasUsed, profGenesisFee = uint64(10_000_000), int64(1_000_000_000)
+var profStart = int64(100) // "digits": the genesis sits at 98 so that the branches cross 99 -> 100 (decimal heights in store keys)
+
+func setProfile(tag string) {
+	profGasUsed, profGenesisFee, profStart = 10_000_000, 1_000_000_000, 100
+	if strings.Contains(tag, "digits") {
+		profStart = 98
+	}
+	switch {
+	case strings.Contains(tag, "tiny-fee"):
+		profGasUsed, profGenesisFee = 20_000_000, 7
+	case strings.Contains(tag, "at-target"):
+		profGasUsed, profGenesisFee = 15_000_000, 1_000_000_000
+	}
+}
+
 func gethHeader(parent *ethtypes.Header, name, rootLabel string, mut string) *ethtypes.Header {
 	if rootLabel == "" {
 		rootLabel = name
@@ -77,13 +96,13 @@ func gethHeader(parent *ethtypes.Header, name, rootLabel string, mut string) *et
 		ReceiptHash: ethtypes.EmptyRootHash,
 		Difficulty:  big.NewInt(2),
 		GasLimit:    30_000_000,
-		GasUsed:     10_000_000,
+		GasUsed:     profGasUsed,
 		Extra:       []byte(name),
 	}
 	if parent == nil {
-		h.Number = big.NewInt(100)
+		h.Number = big.NewInt(profStart)
 		h.Time = baseTime
-		h.BaseFee = big.NewInt(1_000_000_000)
+		h.BaseFee = big.NewInt(profGenesisFee)
 		return h
 	}
 	h.ParentHash = parent.Hash()
@@ -164,6 +183,7 @@ var sharedHost = c07.NewHost()
 
 // New creates the client at genesis header G.
 func New(uni []Node, tag string) bfs.System {
+	setProfile(tag)
 	s := &sys{uni: uni, hdr: map[string]*ethtypes.Header{}, h: sharedHost, accepted: map[string]bool{"G": true}, head: "G", tag: tag}
 	s.hdr["G"] = gethHeader(nil, "G", "", "")
 	for _, n := range uni {
